@@ -822,6 +822,25 @@ def c16(tier):
                               "xs": flat_after_volatile(rnd, n, 1, 9999 if unit == 1000 else 999), "k": 1})
     for i in range(0, len(flats), max(1, len(flats) // 3 + 1)):
         run.submit(p3_stream_job, "flat-%d" % (i // max(1, len(flats) // 3 + 1)), "C16", flats[i:i + len(flats) // 3 + 1])
+    # the recursive views, for which "flat" takes much longer than a window: a volatile stretch, then 1200 identical values, validated
+    # step by step against the machine (= the difference equations).  Normalised indicators must not report the rounding limit cycle
+    # of their smoother as a signal of order one (TrendFlex / ReFlex did for about one constant in three)
+    tails = []
+    def tail(cfg, c, length, k):
+        # values 0.1 .. 10 in units of 1/1000: the tolerance 1e-4 x largest magnitude is 1e-3 of a normalised output
+        tails.append({"cfg": cfg, "unit": 1000, "mode": "machine", "eps": [1, 10000], "float": "f64",
+                      "xs": walk(rnd, 60, 100, 10000, 600) + [c] * length, "k": k})
+    # whether the f64 smoother settles or cycles depends on the constant and the window length (about one constant in five cycles);
+    # 0.777 and 123.4 at N = 20, 123.4 and 999.1 at N = 33 are known to cycle in the unrepaired code, the third is drawn
+    for k in ("TrendFlex", "ReFlex"):
+        for n, cs in (((20, (777, 123400)),) if tier == "quick" else ((20, (777, 123400)), (33, (123400, 999100)), (8, (777, 5555)))):
+            for c in cs + (rnd.randint(101, 99999),):
+                tail({"k": k, "n": n}, c, 2600, 10)     # sqrt(ms) decays by 0.98 per step: the limit cycle shows after about 1700 steps
+    for cfg in ({"k": "LaguerreRSI", "n": 5}, {"k": "CyberCycle", "n": 5}, {"k": "SuperSmoother", "n": 5}, {"k": "RoofingFilter", "n": 5, "m": 3},
+                {"k": "LaguerreFilter", "g": [4, 5]}, {"k": "EhlersFisherTransform", "n": 5, "c": [E, ema(4)]}, ema(20)):
+        tail(cfg, rnd.choice([1234, 9991, 777, rnd.randint(101, 9999)]), 1200, 20)
+    run.submit(p3_stream_job, "flat-tail-a", "C16", tails[:len(tails) // 2])
+    run.submit(p3_stream_job, "flat-tail-b", "C16", tails[len(tails) // 2:])
     run.assumptions.append("the specification has no model of IEEE rounding: rounding effects are only observed on the recorded streams (seeded), not explored")
     return run.finish("recorded f64/f32 streams (random walks over three decades in units of 1/1000; volatile prefixes followed by >= N+1 identical "
                       "values) validated event by event against the exact definition on the ghost window; non-trivial = events where the definition fixes the answer")
